@@ -139,6 +139,13 @@ void *vf_malloc(size_t size, const char *file, int line, const char *func)
     int j = G_junk;
     if (j >= 0 && !G_nojunk) {
         if (j < 256) memset(p, j, size);
+        else if (j >= 300 && j < 500) {     /* "stale mark" fills: every 32-bit (300+v) or 64-bit (400+v) word holds the small integer v, as a block that an
+                                               earlier call used for column/row marks would; a reader that relies on fresh memory being cleared, or that
+                                               clears only part of an index array, meets plausible indices instead of garbage */
+            size_t w = j >= 400 ? 8 : 4; long v = j >= 400 ? j - 400 : j - 300; unsigned char *b = p; size_t i = 0;
+            for (; i + w <= size; i += w) { if (w == 8) { int64_t x = v; memcpy(b + i, &x, 8); } else { int32_t x = (int32_t)v; memcpy(b + i, &x, 4); } }
+            for (; i < size; i++) b[i] = 0;
+        }
         else { uint64_t s = (uint64_t)size * 0x9E3779B97F4A7C15ULL + (uint64_t)line; unsigned char *b = p; for (size_t i = 0; i < size; i++) { s = s * 6364136223846793005ULL + 1442695040888963407ULL; b[i] = (unsigned char)(s >> 56); } }
     }
 #endif
@@ -432,7 +439,8 @@ int main(int argc, char **argv)
         G_cur = &c; G_desc_emitted = 0;
         char line[96]; snprintf(line, sizeof line, "{\"t\":\"start\",\"i\":%ld}\n", i); out_line(line);
         vf_ledger_reset_counters(); vf_events_reset(); vf_cap_set(0, 0, 0); vf_fault_arm(NULL, 0); vf_ienv_default();
-        vf_set_junk((int)(rng_u64(&c.rng) % 4 == 0 ? 256 : (int[]){ 0x00, 0xFF, 0xA5 }[i % 3]));
+        { uint64_t jr = rng_u64(&c.rng); int jm = (int)(jr % 12), jv = (int)((jr >> 20) % 7);
+          vf_set_junk(jm < 3 ? 256 : jm == 3 ? 300 + jv : jm == 4 ? 400 + jv : (int[]){ 0x00, 0xFF, 0xA5 }[i % 3]); }
         struct itimerval it = { { 0, 0 }, { cpu, 0 } }; setitimer(ITIMER_PROF, &it, NULL);
         T_layout_bad = T_layout_seen = 0;
         fn(&c);
